@@ -82,7 +82,7 @@
                 }
             }
         }
-//@loop "while pos > 0"
+//@loop? "while pos > 0"
             invariant
                 self.wf(), self.network.has(node), 0 <= pos < self.len(),
                 forall|j: int| pos <= j < self.len() ==> !self.network.reach(#[trigger] self.nodes@[j], node),
@@ -112,7 +112,7 @@
                 }
             }
         }
-//@loop "while pos < self.nodes.len() - 1"
+//@loop? "while pos < self.nodes.len() - 1"
             invariant
                 self.wf(), self.network.has(node), 0 <= pos < self.len(),
                 forall|j: int| 0 <= j <= pos ==> !self.network.reach(node, #[trigger] self.nodes@[j]),
